@@ -187,9 +187,15 @@ func c11RandomConfig(rng *vRNG, cam pCamera) (*pConfig, int) {
 		return cfg, 1
 	default: // C: dynamic threshold (structural checks only)
 		cfg.Motion = pMotion{Set: map[string]bool{"count-thresh": true, "frame-compare-gap": true}, CountThresh: 1, FrameCompareGap: 1}
-		if rng.Bool() {
+		switch rng.Intn(3) {
+		case 0:
 			cfg.Motion.Set["temp-thresh-min"], cfg.Motion.TempThreshMin = true, 2000
 			cfg.Motion.Set["temp-thresh-max"], cfg.Motion.TempThreshMax = true, 40000
+		case 1:
+			// both limits set and the scene warmer than the upper one: the threshold stored
+			// with a recording has to be the limit
+			cfg.Motion.Set["temp-thresh-min"], cfg.Motion.TempThreshMin = true, 2000
+			cfg.Motion.Set["temp-thresh-max"], cfg.Motion.TempThreshMax = true, 2500
 		}
 		return cfg, 2
 	}
